@@ -16,7 +16,7 @@ LEVEL = "exploration"
 RULE = (
     "LASFiles built through append_curve with nc curves x nr rows whose cells rotate through a palette spanning the "
     "float64 range (0, -0.0, +-4e-6, 0.5, 1, -12345.678, 1e5, 123456789.125, 1e15, 1e22, 1e73, 1e80, 1e300, 5e-324, "
-    "2.5e-7, the default NULL -9999.25 in the index only, NaN outside the index, one all-NaN column); written with "
+    "2.5e-7, finite neighbours of the NULL marker (-9999.2567, -9999.2, 9999.25), the default NULL -9999.25 in the index only, NaN outside the index, one all-NaN column); written with "
     "every writer configuration in the k-deviation ball of (version, wrap, fmt, column_fmt, len_numeric_field, spacer, "
     "lhs_spacer, data_width, mnemonics_header, data_section_header) plus full sub-products, read back with both "
     "engines; non-trivial = wrapped, or a non-default option, or nc >= 2"
@@ -31,7 +31,7 @@ ASSUMPTIONS = [
 
 IDX_PAL = [0.0, 1.0, -9999.25, 0.5, -12345.678, 1e5, 123456789.125, 4e-6, 1e15, -4e-6, 2.5e-7, 1e22]
 VAL_PAL = [0.0, -0.0, 4e-6, -4e-6, 0.5, 1.0, float("nan"), -12345.678, 1e5, 123456789.125, 1e15, 1e22, 1e73,
-           float("nan"), 1e80, 1e300, 5e-324, 2.5e-7]
+           float("nan"), 1e80, 1e300, 5e-324, 2.5e-7, -9999.2567, -9999.2, 9999.25]  # the last three sit next to the NULL marker
 
 AXES = [
     ("version", [2.0, 1.2]),
